@@ -293,7 +293,13 @@ def run_property(pid, tier, seed=0):
             elif verdict == 'undecided':
                 out['undecided'].append(f"kani {h['name']} ({mode}): {reason}")
         if not res:
-            out['undecided'].append('cargo kani produced no harness results: ' + raw[-600:])
+            try:
+                os.makedirs(os.path.join(RUN.BUILD, 'logs'), exist_ok=True)
+                open(os.path.join(RUN.BUILD, 'logs', f'kani_raw_{pid}_{mode}.log'), 'w').write(raw)
+            except OSError:
+                pass
+            errs = [l for l in raw.split('\n') if l.startswith('error')]
+            out['undecided'].insert(0, 'cargo kani produced no harness results: ' + ' | '.join(errs[:3])[:400] + ' ... ' + raw[-300:].replace('\n', ' '))
     out['wall_s'] = round(time.time() - t0, 1)
     tmp = ckey + '.tmp%d' % os.getpid()
     json.dump(out, open(tmp, 'w'))
